@@ -126,7 +126,7 @@ func runC14(c *Ctx) {
 			}
 			if call.Key == "os.OpenFile" {
 				// read-only opens are not writes
-				if flag, ok := constIntOf(call.Arg(1)); ok && flag&0x3 == 0 && flag&(0x40|0x200|0x400) == 0 {
+				if flag, ok := constIntOf(call.Arg(1)); ok && flag&0x3 == 0 && flag&(osFlag(p, "O_CREATE")|osFlag(p, "O_TRUNC")|osFlag(p, "O_APPEND")) == 0 {
 					continue
 				}
 			}
@@ -213,6 +213,22 @@ func runC14(c *Ctx) {
 		c14Wrappers(c)
 	}
 	c14Typestate(c)
+}
+
+// osFlag returns the value of an os.O_* constant in the build being analysed
+// (the numeric values differ between platforms).
+func osFlag(p *core.Prog, name string) int64 {
+	for _, pkg := range p.SSA.AllPackages() {
+		if pkg.Pkg.Path() != "os" {
+			continue
+		}
+		if c, ok := pkg.Members[name].(*ssa.NamedConst); ok {
+			if i, ok := constant.Int64Val(c.Value.Value); ok {
+				return i
+			}
+		}
+	}
+	return -1
 }
 
 func constIntOf(v ssa.Value) (int64, bool) {
